@@ -192,7 +192,10 @@ def work(item):
         return [ob("harness", item["config"], "error", what=f"NotEncodable: {e}")]
 
 
-PAIR_CONSUMERS = ["LLRThresholder(hard)", "llr_to_bits", "WeightedThresholder(1.0, LLR)", "HysteresisThresholder(LLR)", "RepetitionSoftBitDecoder(1, LLR)"]
+# HysteresisThresholder is not paired with demodulators: it has a dead zone of +-hysteresis around the threshold by
+# design, and a noise-free LLR of a dense constellation (or of any constellation at noise_var = 1e3) lies inside it;
+# its polarity is decided by the consumer-alone clause on |LLR| >= 1 (false alarm corrected, DESIGN §11)
+PAIR_CONSUMERS = ["LLRThresholder(hard)", "llr_to_bits", "WeightedThresholder(1.0, LLR)", "RepetitionSoftBitDecoder(1, LLR)"]
 
 
 def all_items():
